@@ -1,6 +1,6 @@
 from xdsl.context import Context
 from xdsl.dialects import builtin, linalg
-from xdsl.ir import Block
+from xdsl.ir import Block, SSAValue
 from xdsl.parser import IRDLOperation
 from xdsl.passes import ModulePass
 from xdsl.pattern_rewriter import (
@@ -17,17 +17,34 @@ from snaxc.dialects.kernel import Kernel, Parsable
 def check_kernel_equivalence(block_a: Block, block_b: Block) -> bool:
     """
     Verify if two blocks are equivalent to each other,
-    that for the same inputs they include the same
-    operations.
+    that for the same inputs they apply the same
+    operations to the same values: same op types, same
+    operand wiring (in the same order) and same result types.
     """
-    if len(block_a.ops) != len(block_b.ops):
+    if len(block_a.args) != len(block_b.args) or len(block_a.ops) != len(block_b.ops):
         return False
 
-    # warning: this is a bit of a naive way of checking equality between
-    # kernels, but should cover all of our purposes for quite some time
+    # number the values of both blocks in definition order: block arguments first, then op results
+    numbering_a: dict[SSAValue, int] = {}
+    numbering_b: dict[SSAValue, int] = {}
+    for arg_a, arg_b in zip(block_a.args, block_b.args, strict=True):
+        if arg_a.type != arg_b.type:
+            return False
+        numbering_a[arg_a] = numbering_b[arg_b] = len(numbering_a)
+
+    # warning: this does not know about commutativity, a body with swapped
+    # operands is (safely) not recognized
     for op_a, op_b in zip(block_a.ops, block_b.ops, strict=True):
         if type(op_a) is not type(op_b):
             return False
+        if op_a.result_types != op_b.result_types:
+            return False
+        operands_a = [numbering_a.get(operand) for operand in op_a.operands]
+        operands_b = [numbering_b.get(operand) for operand in op_b.operands]
+        if None in operands_a or operands_a != operands_b:
+            return False
+        for res_a, res_b in zip(op_a.results, op_b.results, strict=True):
+            numbering_a[res_a] = numbering_b[res_b] = len(numbering_a)
 
     return True
 
